@@ -21,7 +21,16 @@ def bad_statements(rng):
         ("identifier of an if branch after the if", f"if true {{ let br_{v}: u8 = 1u8; }} let {v}: u8 = br_{v};"),
         ("loop variable after the loop", f"for it_{v} in [1u8, 2u8] {{ let w_{v}: u8 = it_{v}; }} let {v}: u8 = it_{v};"),
         ("loop body binding after the loop", f"for it_{v} in [1u8, 2u8] {{ let w_{v}: u8 = it_{v}; }} let {v}: u8 = w_{v};"),
-        ("join loop variable after the loop", f"for (ja_{v}, jb_{v}) in join([(1u8, 2u8)], [(1u8, 3u8)]) {{ let w_{v}: u8 = ja_{v}.1; }} let {v}: u8 = jb_{v}.1;"),
+        ("join-expression loop variable after the loop", f"for (ja_{v}, jb_{v}) in join([(1u8, 2u8)], [(1u8, 3u8)]) {{ let w_{v}: u8 = ja_{v}.1; }} let {v}: u8 = jb_{v}.1;"),
+        ("join loop variable after the loop", f"for (ja_{v}, jb_{v}) in join_iter([(1u8, 2u8)], [(1u8, 3u8)]) {{ let w_{v}: u8 = ja_{v}.1; }} let {v}: u8 = jb_{v}.1;"),
+        ("join loop body binding after the loop", f"for (ja_{v}, jb_{v}) in join_iter([(1u8, 2u8)], [(1u8, 3u8)]) {{ let w_{v}: u8 = ja_{v}.1; }} let {v}: u8 = w_{v};"),
+        ("mutable shadow in a for body leaks mutability", f"let {v}: u8 = 1u8; for it_{v} in [1u8, 2u8] {{ let mut {v}: u8 = it_{v}; {v} = 2u8; }} {v} = 3u8;"),
+        ("mutable shadow in a join loop body leaks mutability", f"let {v}: u8 = 1u8; for (ja_{v}, jb_{v}) in join_iter([(1u8, 2u8)], [(1u8, 3u8)]) {{ let mut {v}: u8 = ja_{v}.1; {v} = jb_{v}.1; }} {v} = 3u8;"),
+        ("mutable shadow in a block leaks mutability", f"let {v}: u8 = 1u8; {{ let mut {v}: u8 = 5u8; {v} = 2u8; }} {v} = 3u8;"),
+        ("mutable shadow in an if branch leaks mutability", f"let {v}: u8 = 1u8; if true {{ let mut {v}: u8 = 5u8; {v} = 2u8; }} {v} = 3u8;"),
+        ("mutable shadow in a match arm leaks mutability", f"let {v}: u8 = 1u8; let m_{v}: u8 = match 1u8 {{ _ => {{ let mut {v}: u8 = 5u8; {v} = 2u8; {v} }} }}; {v} = 3u8;"),
+        ("for loop over a non-array", f"for it_{v} in 5u8 {{ let w_{v}: u8 = it_{v}; }}"),
+        ("join loop over arrays with different key types", f"for (ja_{v}, jb_{v}) in join_iter([(1u8, 2u8)], [(1u16, 3u8)]) {{ let w_{v}: u8 = ja_{v}.1; }}"),
         ("identifier of a block expression after it", f"let {v}: u8 = {{ let bl_{v}: u8 = 1u8; bl_{v} }} + bl_{v};"),
         ("identifier of an enum arm in another arm", f"let {v}: u8 = match (1u8, 2u8) {{ (0u8, p_{v}) => p_{v}, (q_{v}, _) => p_{v} }};"),
         ("use before definition", f"let {v}: u8 = later_{v}; let later_{v}: u8 = 1u8;"),
